@@ -112,6 +112,7 @@ fn frames_of(m: &ProguardMapper, c: &str, meth: &str, line: usize, file: Option<
 /// order of distinctly named class blocks.
 pub fn oracle_c01(rng: &mut Rng, tier: &str) -> Report {
     let mut rep = Report::new();
+    nonmonotone_expectation(&mut rep);
     let n = if thorough(tier) { 12000 } else { 1200 };
     for _ in 0..n {
         let mut cfg = Cfg::domain();
@@ -535,6 +536,45 @@ pub fn oracle_c06(rng: &mut Rng, tier: &str) -> Report {
             }
         }
         rep.stats.insert(format!("corpus_splits:{}", name), k);
+    }
+    // the JSON sourceFile header: every body of <= 5 (7) tokens over quotes, backslashes, braces and
+    // terminators after the fixed prefix, followed by lines that must stay lines
+    {
+        const TOK: &[&[u8]] = &[b"a", b"\\", b"\"", b"}", b"\"}", b"\n", b"\r\n", b"\\\""];
+        let maxl = if th { 6 } else { 5 };
+        let prefix: &[u8] = b"# {\"id\":\"sourceFile\",\"fileName\":\"";
+        let tail: &[u8] = b"o.B -> b:\n    void m() -> k\"}\n# t: v\n";
+        let mut idx: Vec<usize> = vec![];
+        let mut count = 0u64;
+        loop {
+            let mut a = prefix.to_vec();
+            for &i in &idx {
+                a.extend_from_slice(TOK[i]);
+            }
+            check_resync(&mut rep, &a, tail, b'\n');
+            count += 1;
+            let mut p = idx.len();
+            let mut grown = false;
+            loop {
+                if p == 0 {
+                    idx = vec![0; idx.len() + 1];
+                    grown = true;
+                    break;
+                }
+                p -= 1;
+                if idx[p] + 1 < TOK.len() {
+                    idx[p] += 1;
+                    for q in p + 1..idx.len() {
+                        idx[q] = 0;
+                    }
+                    break;
+                }
+            }
+            if grown && idx.len() > maxl {
+                break;
+            }
+        }
+        rep.stats.insert("sourcefile_escape_bodies".into(), count);
     }
     long_input_oracle(&mut rep, th, false);
     rep
@@ -1114,6 +1154,18 @@ pub fn oracle_c10(rng: &mut Rng, tier: &str) -> Report {
                     if nontriv {
                         rep.nontrivial += 1;
                     }
+                    // the integrity self-test is part of "what the file means": a file the pinned
+                    // release accepts with `test()` must be accepted by the current `test()` too
+                    rep.checks += 1;
+                    let tp = catch_unwind(AssertUnwindSafe(|| p.test())).is_ok();
+                    let tc = catch_unwind(AssertUnwindSafe(|| c.test())).is_ok();
+                    if tp && !tc {
+                        rep.fail(
+                            &format!("file written by {} release passes the pinned release's test() but not the current one", writer),
+                            { let mut o = ops0.clone(); o.push("BTEST".into()); o },
+                            String::new(),
+                        );
+                    }
                 }
                 (Err(e), _) if e == "ERR WrongVersion" => rep.count("current_reader_rejects_version"),
                 (_, Err(e)) if e == "ERR WrongVersion" => rep.count("pinned_reader_rejects_version"),
@@ -1440,6 +1492,61 @@ pub fn oracle_c14(seed: u64, tier: &str) -> Report {
         }
         if i < 2 {
             rep.sample(format!("{} byte mapping -> {} byte cache, fnv {:016x}", m.len(), b.len(), fnv(&b)));
+        }
+    }
+    // the same bytes whatever the sink: a large mapping (more classes / members than any internal
+    // batch) through sinks that accept 1 000 / 65 536 bytes per call, and small mappings through
+    // sinks that fail exactly once at call i and then work again
+    {
+        let mut t = String::new();
+        for i in 0..10_000 {
+            t.push_str(&format!("o.C{} -> c{}:\n", i, i));
+            if i % 7 == 0 {
+                t.push_str("    1:2:void m(int):3:4 -> a\n    void n() -> b\n");
+            }
+        }
+        let text = t.into_bytes();
+        let canon = proto::cur::write_cache_safe(&text);
+        for chunk in [1000usize, 65_536, 4096 * 28 - 1, 7] {
+            if chunk == 7 && !thorough(tier) {
+                continue;
+            }
+            rep.checks += 1;
+            let mut sk = ScriptSink { chunk, at: None, calls: 0, accepted: vec![], failed: false };
+            let r = catch_unwind(AssertUnwindSafe(|| ProguardCache::write(&ProguardMapping::new(&text), &mut sk)));
+            match r {
+                Ok(Ok(())) if sk.accepted == canon => rep.nontrivial += 1,
+                Ok(Ok(())) => rep.fail(
+                    "a sink accepting fewer bytes per call received other bytes than a Vec (10 000 classes)",
+                    vec!["# mapping: 10 000 classes `o.C<i> -> c<i>:`, every 7th with two members".to_string(), format!("# sink: at most {} bytes per call", chunk)],
+                    format!("got {} bytes, Vec output has {} (header-implied {:?})", sk.accepted.len(), canon.len(), implied_len(&sk.accepted)),
+                ),
+                other => rep.fail("write failed / panicked on a healthy chunking sink", vec![format!("# sink: at most {} bytes per call", chunk)], format!("{:?}", other.map(|x| x.is_ok()).is_ok())),
+            }
+        }
+        let mut rng2 = Rng::new(seed ^ 0x51C4);
+        for _ in 0..(if thorough(tier) { 200 } else { 30 }) {
+            let mut cfg = Cfg::domain();
+            cfg.max_classes = 3;
+            cfg.max_members = 4;
+            let text = gen_mapping(&mut rng2, &cfg).text;
+            let canon = proto::cur::write_cache_safe(&text);
+            let mut probe = ScriptSink { chunk: usize::MAX, at: None, calls: 0, accepted: vec![], failed: false };
+            let _ = ProguardCache::write(&ProguardMapping::new(&text), &mut probe);
+            for idx in 0..probe.calls + 1 {
+                rep.checks += 1;
+                let mut sk = ScriptSink { chunk: usize::MAX, at: Some((idx, Act::Fail)), calls: 0, accepted: vec![], failed: false };
+                let r = ProguardCache::write(&ProguardMapping::new(&text), &mut sk);
+                if r.is_ok() && (sk.failed || sk.accepted != canon) {
+                    rep.fail(
+                        "a write that reports success delivered other bytes than the canonical ones (sink failed once, then recovered)",
+                        vec![format!("MAP {}", hx(&text)), format!("# sink script: fail once at call {}", idx)],
+                        format!("{} bytes delivered, canonical {}, header-implied {:?}", sk.accepted.len(), canon.len(), implied_len(&sk.accepted)),
+                    );
+                } else {
+                    rep.nontrivial += 1;
+                }
+            }
         }
     }
     // order dependence on one thread: for mappings whose caches have the SAME length (but other
@@ -1874,9 +1981,53 @@ fn static_assertions() {
     assert_send_sync::<proguard::LineMapping>();
 }
 
+/// One method name with 10 000 entries whose ranges are NOT ascending (two interleaved runs):
+/// answers constructed here, asked from 8 threads sharing one mapper and one cache.
+pub fn nonmonotone_expectation(rep: &mut Report) {
+    {
+        let n = 10_000usize;
+        let text = crate::gens::nonmonotone_mapping(n);
+        let ms: &'static [u8] = Box::leak(text.into_boxed_slice());
+        let mapper = proto::cur::mapper(ms, false);
+        let cbytes = proto::aligned_static(&proto::cur::write_cache(ms));
+        if let Ok(cache) = ProguardCache::parse(cbytes) {
+            let (mapper, cache) = (&mapper, &cache);
+            let bad: Vec<String> = std::thread::scope(|sc| {
+                let hs: Vec<_> = (0..8usize).map(|t| sc.spawn(move || {
+                    let mut bad = Vec::new();
+                    let mut l = 1 + t;
+                    while l <= n / 2 {
+                        let want = vec![("ov0".to_string(), 1000 + l - 1), ("ov1".to_string(), 2000 + l - 1)];
+                        let f = StackFrame::new("big", "a", l);
+                        let gm: Vec<(String, usize)> = mapper.remap_frame(&f).map(|x| (x.method().to_string(), x.line())).collect();
+                        let gc: Vec<(String, usize)> = cache.remap_frame(&f).map(|x| (x.method().to_string(), x.line())).collect();
+                        if gm != want || gc != want {
+                            bad.push(format!("line {}: mapper {:?} cache {:?} expected {:?}", l, gm, gc, want));
+                            if bad.len() > 3 {
+                                break;
+                            }
+                        }
+                        l += 8 * 37;
+                    }
+                    bad
+                })).collect();
+                hs.into_iter().flat_map(|h| h.join().unwrap_or_default()).collect()
+            });
+            rep.checks += 1;
+            if bad.is_empty() {
+                rep.nontrivial += 1;
+            } else {
+                rep.fail("a method with 10 000 non-ascending line entries is not answered with exactly the entries containing the line",
+                         vec![format!("# mapping: class big, {} entries `i:i:void ov0():1000+i-1` then {} entries `i:i:void ov1():2000+i-1`, all -> a", n / 2, n / 2)], bad.join("; "));
+            }
+        }
+    }
+}
+
 pub fn oracle_c20(rng: &mut Rng, tier: &str) -> Report {
     let mut rep = Report::new();
     rep.stats.insert("send_sync_types_asserted_at_compile_time".into(), 15);
+    nonmonotone_expectation(&mut rep);
     let n = if thorough(tier) { 1600 } else { 160 };
     for i in 0..n {
         let text = if i == 1 { crate::gens::threshold_mapping(130) } else if i == 2 { crate::gens::boundary_mapping() } else { domain_mapping(rng, &Cfg::domain()) };
